@@ -21,6 +21,7 @@ pub mod c14;
 pub mod c14t;
 pub mod c15;
 pub mod c16;
+pub mod c16t;
 pub mod c17;
 pub mod c18;
 pub mod c19;
